@@ -14,7 +14,7 @@ DECIDES = ('the input of split_curve / split_surface_u / split_surface_v / decom
            'direction-coherent: degree, knot vector, size, multiplicity and the position of the parameter and of the insertion count in '
            'the per-direction lists all belong to the function\'s direction, the other direction is copied unchanged (AX3/AXL/AXK); the '
            'insertion count is degree - multiplicity of the split direction; decomposition iterates over exactly the interior knots '
-           'kv[p+1 : -(p+1)] and uses the split functions in (u, v) order (DC1); [SKEL, bounded] the knot insertion skeleton used for splitting defines every output cell for every existing-knot multiplicity. the knot insertion helper that splitting is built on never hands a cell of its in-place-updated work array to the output without a deep copy (AL1).')
+           'kv[p+1 : -(p+1)] and uses the split functions in (u, v) order (DC1); [SKEL, bounded] the knot insertion skeleton used for splitting defines every output cell for every existing-knot multiplicity. the knot insertion helper that splitting is built on never hands a cell of its in-place-updated work array to the output without a deep copy (AL1). both span searches that the split functions accept (find_span_func) return exactly the half-open interval of the split parameter, also when it lies on a knot (OT1, order types); the working copy made by deepcopy shares no cache with the input (IV4). the fresh pieces receive the homogeneous control points of the refined copy - sliced from ctrlptsw when rational (or the weighted grid) and stored through set_ctrlpts / ctrlpts2d, never through the unweighted setter (RV1).')
 NOT_DECIDED = 'coincidence of the pieces with the original under the affine domain map, slice offsets ks + r of the control net, one piece per non-empty interval: numerical/index-arithmetic facts of the algorithm.'
 TECHNIQUE = 'alias/mutation analysis with deep-mutation summaries, CFG dominance, axis tags'
 
@@ -51,11 +51,92 @@ def check(m, run):
     for key, (axis, pdim) in SPLITS.items():
         split_rules(m, run, m.func(key), axis, pdim)
     decompose_rules(m, run)
+    rv1(m, run)
     # splitting inserts the split parameter up to full multiplicity, usually at an existing knot (s >= 1): the A5.1 cell skeleton
     from .. import skel_drivers
     skel_drivers.c04(m, run)
     from .. import ops_common as oc
     oc.helper_alias_rules(m, run, 'helpers.knot_insertion')
+    skel_drivers.c03_order(m, run)
+    from .. import rules_state as rs
+    rs.iv4_deepcopy(m, run)
+
+
+def rv1(m, run):
+    """RV1: the pieces are fresh objects, so they must receive the *homogeneous* data of the refined copy: the array that is sliced comes
+    from `ctrlptsw` when the input is rational (or from `ctrlpts2d`, which is the weighted grid for rational surfaces) and is stored
+    through set_ctrlpts / ctrlptsw / ctrlpts2d - never through the unweighted `ctrlpts` setter, which gives a fresh rational piece unit weights"""
+    n = 0
+    for key in SPLITS:
+        fi = m.func(key)
+        defs = {}
+        for a in walk_no_nested(fi.node):
+            if isinstance(a, ast.Assign) and len(a.targets) == 1 and isinstance(a.targets[0], ast.Name):
+                defs.setdefault(a.targets[0].id, []).append(a.value)
+
+        # names fed by X.append(v) inside a loop, and loop variables bound by iterating a view
+        for x in walk_no_nested(fi.node):
+            if isinstance(x, ast.Call) and isinstance(x.func, ast.Attribute) and x.func.attr in ('append', 'extend') and isinstance(x.func.value, ast.Name) and x.args:
+                defs.setdefault(x.func.value.id, []).append(x.args[0])
+            if isinstance(x, ast.For) and isinstance(x.target, ast.Name):
+                defs.setdefault(x.target.id, []).append(x.iter)
+
+        def root_view(e, depth=0, seen=None):
+            """set of control point views the VALUE of an expression is taken from (indices and sizes are not followed)"""
+            seen = seen if seen is not None else set()
+            out = set()
+            if depth > 8 or e is None:
+                return out
+            if isinstance(e, ast.Attribute):
+                if e.attr in ('ctrlpts', 'ctrlptsw', 'ctrlpts2d'):
+                    out.add(e.attr)
+                return out
+            if isinstance(e, ast.IfExp):
+                b, o = root_view(e.body, depth + 1, seen), root_view(e.orelse, depth + 1, seen)
+                if 'rational' in norm(e.test) and b == {'ctrlptsw'} and o == {'ctrlpts'}:
+                    return {'w-if-rational'}
+                return b | o | ({'other-conditional'} if (b | o) else set())
+            if isinstance(e, ast.Subscript):
+                return root_view(e.value, depth + 1, seen)
+            if isinstance(e, ast.Name):
+                if e.id in seen:
+                    return out
+                seen = seen | {e.id}
+                for d in defs.get(e.id, []):
+                    out |= root_view(d, depth + 1, seen)
+                return out
+            if isinstance(e, ast.Call):
+                if isinstance(e.func, ast.Name) and e.func.id in ('list', 'tuple', 'deepcopy', 'reversed') and e.args:
+                    return root_view(e.args[0], depth + 1, seen)
+                if isinstance(e.func, ast.Attribute) and e.func.attr == 'deepcopy' and e.args:
+                    return root_view(e.args[0], depth + 1, seen)
+                return out
+            if isinstance(e, (ast.List, ast.Tuple)):
+                for x in e.elts:
+                    out |= root_view(x, depth + 1, seen)
+                return out
+            if isinstance(e, ast.BinOp):
+                return root_view(e.left, depth + 1, seen) | root_view(e.right, depth + 1, seen)
+            if isinstance(e, ast.ListComp):
+                return root_view(e.elt, depth + 1, seen) | root_view(e.generators[0].iter, depth + 1, seen)
+            return out
+        for st in walk_no_nested(fi.node):
+            how, val = None, None
+            if isinstance(st, ast.Expr) and isinstance(st.value, ast.Call) and isinstance(st.value.func, ast.Attribute) and st.value.func.attr == 'set_ctrlpts' and st.value.args:
+                how, val = 'set_ctrlpts', st.value.args[0]
+            elif isinstance(st, ast.Assign) and len(st.targets) == 1 and isinstance(st.targets[0], ast.Attribute) and st.targets[0].attr in ('ctrlpts', 'ctrlptsw', 'ctrlpts2d'):
+                how, val = st.targets[0].attr, st.value
+            if how is None:
+                continue
+            n += 1
+            views = root_view(val)
+            ok = how != 'ctrlpts' and views and views <= {'w-if-rational', 'ctrlptsw', 'ctrlpts2d'}
+            run.ob('RV1.pieces-get-homogeneous-points', '%s :: %s' % (key, norm(st)[:60]), bool(ok),
+                   'stored through %s from %s' % (how, sorted(views)) if ok else
+                   'a fresh piece is filled through `%s` from the view(s) %s: for a rational input the weights of the piece are lost (unit weights) '
+                   '- the refined copy\'s ctrlptsw (or ctrlpts2d) must be sliced and stored with set_ctrlpts' % (how, sorted(views)), site(fi, st))
+    if n < 6:
+        raise AnalysisError('RV1: only %d piece stores found in the split functions' % n)
 
 
 def split_rules(m, run, fi, axis, pdim):
